@@ -46,7 +46,7 @@ Fixpoint bad_ids {A} (f : A -> bool) (l : list (N * A)) : list N :=
   end.
 
 (** what a case file prints: the number of failures, then the first 40 failing ids *)
-Definition report (l : list N) : list N := N.of_nat (List.length l) :: firstn 40 l.
+Definition report_ids (l : list N) : list N := N.of_nat (List.length l) :: firstn 40 l.
 
 (** strings with non-printable bytes are shipped as byte lists *)
 Fixpoint bs (l : list N) : string :=
